@@ -615,6 +615,31 @@ def random_exec(rng, nops):
     return ["RESET %d %s" % (ns, " ".join(map(str, src)))] + lines
 
 
+def search_exec(rng):
+    """searching and comparing over a two-letter alphabet, so that partial matches are everywhere: needle of 1..4 bytes
+    against haystack views that end exactly at the end of the (exact-size) source block or somewhere inside it"""
+    ns = rng.randint(3, 12)
+    src = [rng.choice([65, 66, 66]) for _ in range(ns)]
+    lines = []
+    for _ in range(rng.randint(8, 24)):
+        hn = rng.randint(0, ns)
+        hoff = rng.choice([ns - hn, ns - hn, rng.randint(0, ns - hn)])
+        nn = rng.randint(1, min(4, ns))
+        noff = rng.randint(0, ns - nn)
+        lines.append("CURSRC 1 %d %d" % (hoff, hn))
+        lines.append("CURSRC 2 %d %d" % (noff, nn))
+        k = rng.random()
+        if k < 0.6:
+            lines.append("FIND 1 2 %d" % rng.choice([0, 3]))
+        elif k < 0.75:
+            lines.append("STARTS 1 2 %d" % rng.randint(0, 1))
+        elif k < 0.9:
+            lines.append("EQ 1 2 %d" % rng.randint(0, 1))
+        else:
+            lines.append("CMP 1 2")
+    return ["RESET %d %s" % (ns, " ".join(map(str, src)))] + lines
+
+
 def parse_exec(rng):
     """number parsing at the 64-bit boundary, through source views and through buffer views"""
     lines, bs, spans = [], [], []
@@ -721,6 +746,10 @@ def gen_and_drive(ctx, thorough):
     npar = 100 if not thorough else 2000
     for _ in range(npar):
         execs.append(parse_exec(rng))
+    nsearch = 300 if not thorough else 6000
+    for _ in range(nsearch):
+        execs.append(search_exec(rng))
+    ctx.extra["search_scripts"] = nsearch
     ctx.extra["random_scripts"] = nrand + npar
     # regression script of the repaired finding F8: part of the regular executions, judged by the strict specification.
     # Only a known_findings.txt record with status "known" and id F8 routes its rejection to KNOWN-FINDING.
